@@ -14,6 +14,7 @@ import (
 	"net/http/httptest"
 	"os"
 	"path/filepath"
+	"sort"
 	"strings"
 	"testing"
 	"time"
@@ -99,7 +100,14 @@ func c19typed(v int) string {
 	return fmt.Sprintf("@ POST /t {\n  < input: Item\n  > {version: %d, name: input.name, twice: input.qty * 2}\n}\n\n", v)
 }
 
+// c19interp: the program of this run injects a provider, so it runs on the interpreter, and its
+// routes use a module-level constant (looked up when a request is served)
+var c19interp bool
+
 func c19valid(v int) string {
+	if c19interp {
+		return c19types + fmt.Sprintf("const BASE = %d\n\n@ GET /v {\n  %% db: Database\n  > {version: BASE, doubled: BASE * 2, rows: db.items.length()}\n}\n\n@ GET /other {\n  > {ok: true}\n}\n\n", v) + c19typed(v)
+	}
 	return c19types + fmt.Sprintf("@ GET /v {\n  $ base = %d\n  > {version: base, doubled: base * 2}\n}\n\n@ GET /other {\n  > {ok: true}\n}\n\n", v) + c19typed(v)
 }
 
@@ -109,6 +117,9 @@ func c19content(kind string, v int) string {
 		return c19valid(v)
 	case "parse-error":
 		return c19typesBroken + c19typed(v) + fmt.Sprintf("@ GET /v {\n  $ base = %d\n  > {version: base, doubled: base * \n", v)
+	case "load-error":
+		// parses, and every definition before the last loads; the last constant does not
+		return c19valid(v) + "const RETRIES: int = \"three\"\n"
 	case "semantic-error":
 		if v%3 == 0 {
 			// every route compiles, but two WebSocket routes claim one path
@@ -145,6 +156,9 @@ func c19genEdits(s *sim.Sim, n int) []c19edit {
 			e.kind = "parse-error"
 		case r < 9:
 			e.kind = "semantic-error"
+			if c19interp && s.Choose(sim.SWork, 2) == 0 {
+				e.kind = "load-error"
+			}
 		case r < 10:
 			e.kind = "empty"
 		case r < 11:
@@ -244,12 +258,25 @@ func c19Dev(s *sim.Sim, p *sim.Params) {
 	}
 	defer os.RemoveAll(dir)
 	file := filepath.Join(dir, "main.glyph")
+	if s.Choose(sim.SWork, 4) == 0 {
+		// the project is opened through a symbolic link (a linked work directory, /tmp on macOS)
+		os.Mkdir(filepath.Join(dir, "real"), 0o755)
+		if os.Symlink(filepath.Join(dir, "real"), filepath.Join(dir, "link")) == nil {
+			file = filepath.Join(dir, "link", "main.glyph")
+			s.Probe("project-behind-symlink")
+		}
+	}
 	var sample []string
 	defer func() { s.Note("sample", sample) }()
 	logf := func(f string, a ...any) {
 		if len(sample) < 80 {
 			sample = append(sample, fmt.Sprintf("[t=%v] ", s.Now())+fmt.Sprintf(f, a...))
 		}
+	}
+	c19interp = s.Choose(sim.SWork, 3) == 0
+	defer func() { c19interp = false }()
+	if c19interp {
+		s.Probe("interpreter-mode-program")
 	}
 	port := 18080
 	addr := listenAddr(port)
@@ -572,7 +599,111 @@ func (sv *c19server) SetState(st map[string]interface{}) error {
 	return nil
 }
 
+// c19LibraryMulti: a watched tree with two programs. The manager compiles the file that changed
+// and hands the result to the server, so after a quiet period the server runs the compilation of
+// the latest content of a file that was edited since the last quiet period (when it compiles), and
+// keeps what it ran when nothing edited compiles.
+func c19LibraryMulti(s *sim.Sim, p *sim.Params) {
+	dir, err := os.MkdirTemp("", "c19multi-")
+	if err != nil {
+		s.InfraFail(err.Error())
+	}
+	defer os.RemoveAll(dir)
+	files := []string{filepath.Join(dir, "main.glyph"), filepath.Join(dir, "other.glyph")}
+	var sample []string
+	defer func() { s.Note("sample", sample) }()
+	logf := func(f string, a ...any) {
+		if len(sample) < 80 {
+			sample = append(sample, fmt.Sprintf("[t=%v] ", s.Now())+fmt.Sprintf(f, a...))
+		}
+	}
+	content := []string{c19valid(1), c19valid(500)}
+	for i, f := range files {
+		os.WriteFile(f, []byte(content[i]), 0o644)
+	}
+	bc1, err := c19compile(content[0])
+	if err != nil {
+		s.InfraFail("C19: baseline compile: " + err.Error())
+	}
+	sv := &c19server{s: s, active: bc1, state: map[string]interface{}{"sessions": 3}}
+	rm := hotreload.NewReloadManager([]string{dir}, c19compiler{s: s}, sv)
+	ctx, cancel := sim.WithCancel(context.Background())
+	defer cancel()
+	if err := rm.Start(ctx); err != nil {
+		s.InfraFail("C19: ReloadManager.Start: " + err.Error())
+	}
+	defer rm.Stop()
+	logf("mode=library, two programs in the watched tree")
+	s.Probe("library-two-file-run")
+	edited := map[int]bool{}
+	var written []string
+	prevActive := string(bc1)
+	version := 1
+	nedits := 2 + s.Choose(sim.SWork, 8)
+	for i := 0; i < nedits; i++ {
+		fi := s.Choose(sim.SWork, 2)
+		version++
+		kind := []string{"valid", "valid", "valid", "parse-error", "semantic-error"}[s.Choose(sim.SWork, 5)]
+		v := version
+		if fi == 1 {
+			v += 500
+		}
+		content[fi] = c19content(kind, v)
+		os.WriteFile(files[fi], []byte(content[fi]), 0o644)
+		edited[fi] = true
+		written = append(written, content[fi])
+		wait := []time.Duration{0, 300 * time.Millisecond, 2 * time.Second, 4 * time.Second}[s.Choose(sim.SWork, 4)]
+		logf("edit %d: %s of %s (v%d) then wait %v", i, kind, filepath.Base(files[fi]), v, wait)
+		if i == nedits-1 && wait < 2*time.Second {
+			wait = 3 * time.Second
+		}
+		if wait > 0 {
+			c19wait(s, wait)
+		}
+		if wait < 2*time.Second {
+			continue
+		}
+		// quiescent: judge
+		s.Probe("quiescent-check")
+		// if the latest content of every edited file compiles, the server runs one of those;
+		// otherwise it may also still run what it ran before, or an intermediate content that was
+		// on disk for a while since then and compiled (a poll may have caught it)
+		allowed := map[string]string{}
+		allCompile := true
+		for f := range edited {
+			if bc, err := c19compile(content[f]); err == nil {
+				allowed[string(bc)] = filepath.Base(files[f])
+			} else {
+				allCompile = false
+			}
+		}
+		if !allCompile {
+			allowed[prevActive] = "what it ran before"
+			for _, c := range written {
+				if bc, err := c19compile(c); err == nil {
+					allowed[string(bc)] = "an intermediate content"
+				}
+			}
+		}
+		if _, ok := allowed[string(sv.active)]; !ok {
+			var names []string
+			for f := range edited {
+				names = append(names, filepath.Base(files[f]))
+			}
+			sort.Strings(names)
+			s.Fail("oracle", "library-server-stale:two-files", fmt.Sprintf("after edit %d and %v of quiet the server does not run the compilation of the latest content of any file edited since the last quiet period (%v); reloads=%d\n%s", i, wait, names, sv.reloads, strings.Join(sample, "\n")))
+		}
+		prevActive = string(sv.active)
+		edited = map[int]bool{}
+		written = nil
+	}
+}
+
 func c19Library(s *sim.Sim, p *sim.Params) {
+	if s.Choose(sim.SWork, 4) == 0 {
+		c19LibraryMulti(s, p)
+		return
+	}
 	dir, err := os.MkdirTemp("", "c19lib-")
 	if err != nil {
 		s.InfraFail(err.Error())
